@@ -45,7 +45,13 @@ RULE = ("files of n in {1..6,8,12,20} lines (GFF3 and GTF) whose features have /
         "bytes in utf-8 / latin-1 / utf-16 through the handle under test and through second handles opened with "
         "default_encoding latin-1 (confusable families: also utf-8) (absent: FeatureNotFoundError), and - numeric-looking keys - as int (either "
         "FeatureNotFoundError or the feature stored under str(int)); ids of an 'encoding' family ('\u00e9', '\u00c3\u00a9', ...) make the "
-        "bytes of one key decode to another stored key. non-trivial = >= 2 different derivation branches taken in "
+        "bytes of one key decode to another stored key; (force_gff) GTF-looking files (85%; gene/transcript lines carrying gene_id / "
+        "transcript_id, some ids repeated, with or without an ID attribute) and GFF3 files imported with force_gff=True under "
+        "id_spec None (3 of 8: the default of the format actually used - the GFF one: ID, else '<featuretype>_<n>') and under "
+        "string / list / dict / callable specs, with and without the disable_infer_* flags; (tuples) dict id_spec whose "
+        "per-featuretype entries are tuples of names - all of them, or tuples beside lists and strings, one-element tuples, in plain "
+        "dicts, OrderedDict and a dict subclass - and a whole id_spec given as a tuple (also ending in a ':column:'), on features "
+        "that have / lack / multiply define the listed attributes. non-trivial = >= 2 different derivation branches taken in "
         "one file (or a rejected multi-valued id), or a handle whose position holds another id; distinct = distinct "
         "(format, spec, path, file content, script)")
 REQUIRED = ["imports", "keys compared with the reference derivation", "lookups db[key]", "lookups db[feature]",
@@ -76,7 +82,19 @@ REQUIRED = ["imports", "keys compared with the reference derivation", "lookups d
             "str-subclass keys spelling a stored key looked up", "bytes keys spelling a stored key probed",
             "bytes keys: FeatureNotFoundError", "bytes keys probed through a handle with default_encoding latin-1",
             "bytes keys whose decoding under the handle's default_encoding is ANOTHER stored key",
-            "int keys for numeric-looking stored keys probed"]
+            "int keys for numeric-looking stored keys probed",
+            # format-forcing option
+            "force_gff: imports of GTF-looking input with id_spec None",
+            "force_gff: keys compared, GTF-looking input, id_spec None",
+            "force_gff: gene/transcript lines carrying gene_id/transcript_id and no ID keyed '<featuretype>_<n>' (id_spec None)",
+            "force_gff: lines of GTF-looking input keyed by their ID attribute (id_spec None)",
+            "force_gff: keys compared, GTF-looking input, explicit id_spec",
+            # tuples of names
+            "tuple entries: imports under a dict id_spec with tuple entries",
+            "tuple entries: keys taken from the first listed attribute that is present",
+            "tuple entries: keys taken from the 2nd or later name of a tuple (earlier ones absent)",
+            "tuple entries: no listed attribute present -> '<featuretype>_<n>'",
+            "tuple entries: multi-valued id attribute named in a tuple rejected"]
 REQUIRED_CLASSES = ["fmt=gff3", "fmt=gtf"] + ["form=" + f for f in G.FORMS] + ["form=confusable"] + [
     "branch=attribute#0", "branch=attribute#1", "branch=column", "branch=fallback", "branch=dict:no entry->fallback",
     "branch=dict:entry absent->fallback", "branch=callable:None->fallback", "branch=callable:autoincrement",
@@ -87,7 +105,9 @@ REQUIRED_CLASSES = ["fmt=gff3", "fmt=gtf"] + ["form=" + f for f in G.FORMS] + ["
     "dict id_spec class=" + c for c in G.DICT_CLASSES] + ["update(id_spec=...) differs from create_db's id_spec",
     "equal id values: strategy=error", "equal id values: strategy=create_unique", "confusable=encoding",
     "successive: first import auto-numbered nothing", "successive: first import handed out counters"] + [
-    "successive: strategy=" + st for st in G.STRATEGIES]
+    "successive: strategy=" + st for st in G.STRATEGIES] + [
+    "force_gff: GTF-looking input", "force_gff: GFF3 input", "force_gff: id_spec None", "force_gff: explicit id_spec",
+    "form=dict-tuple", "form=tuple", "tuple entries: tuples beside lists / strings in one dict", "tuple entries: every entry a tuple"]
 ASSUMPTIONS = [
     "inputs on which the derived keys collide are not judged (the key would then be altered by the merge strategy, "
     "which is C05's subject); they are skipped and counted",
@@ -118,6 +138,13 @@ ASSUMPTIONS = [
     "handle of whatever default_encoding) is not a stored key, hence absent -> FeatureNotFoundError; the statement does not say "
     "whether an int spells the decimal text: db[12] may raise FeatureNotFoundError or return the feature stored under '12', "
     "never one stored under another key ('012', '12.0')",
+    "force_gff=True imports the file through the GFF importer whatever it looks like: 'None/default per format' is then the "
+    "default of the format actually used ('ID', every line without an ID attribute '<featuretype>_<n>'), gene_id / transcript_id "
+    "are ordinary attributes; an explicit id_spec means what it says; update() after such an import of GTF-looking input is not "
+    "generated (which format's default applies there is not stated).  This tree has no force_gtf option (create_db(..., "
+    "force_gtf=True) raises TypeError 'unhandled kwarg'): GFF3-looking input forced through the GTF importer is not generated",
+    "a per-featuretype entry of a dict id_spec (or the whole id_spec) given as a tuple of names means what the list of the same "
+    "names means (documented 'list or tuple'): first listed attribute that is present, a listed multi-valued one rejected",
 ]
 QUICK_SHARDS = 4
 THOROUGH_SHARDS = 16
@@ -175,10 +202,11 @@ def real_spec(spec):
     if form == "none":
         return None
     if form in ("str", "list"):
-        return spec["v"] if form == "str" else list(spec["v"])
+        return spec["v"] if form == "str" else (tuple(spec["v"]) if spec.get("seq") == "tuple" else list(spec["v"]))
     if form == "dict":
         ent = lambda v: v if isinstance(v, str) else list(v)
-        items = [(k, ent(v)) for k, v in spec["v"].items()]
+        tuples = set(spec.get("tuples") or ())
+        items = [(k, tuple(v) if k in tuples and not isinstance(v, str) else ent(v)) for k, v in spec["v"].items()]
         cls = spec.get("cls") or "dict"
         if cls == "dict":
             return dict(items)
@@ -215,6 +243,10 @@ def execute(ctx, case):
     if case.get("kind") == "stale":
         return execute_stale(ctx, case)
     fmt, spec = case["fmt"], case["spec"]
+    # the format actually used for the import: force_gff routes whatever the file looks like to the GFF importer
+    ufmt = "gff3" if case.get("force") == "gff" else fmt
+    if case.get("force") not in (None, "gff"):
+        raise AssertionError("harness: unknown format-forcing option %r" % (case["force"],))
     batches = case["batches"]
     collide = case.get("kind") == "collide"
     strategy = case["strategy"] if collide else (case.get("ustrategy") or "error")
@@ -225,7 +257,7 @@ def execute(ctx, case):
     for bi, b in enumerate(batches):
         if bi >= 1 and case.get("spec2"):
             deriver.use(case["spec2"])          # update(id_spec=...) under another id_spec; the counters go on
-        r = MC.derive_all(spec, fmt, b, deriver)
+        r = MC.derive_all(spec, ufmt, b, deriver)
         deriver = r["deriver"]
         plan.append(r)
         if r["outcome"] != "keys":
@@ -272,6 +304,10 @@ def execute(ctx, case):
     kw_create = dict(kw)
     if case.get("keys"):
         kw_create.update(gtf_transcript_key=case["keys"][0], gtf_gene_key=case["keys"][1])
+    if case.get("force") == "gff":
+        kw_create["force_gff"] = True
+        if len(batches) > 1 and fmt != "gff3":
+            raise AssertionError("harness: update() after force_gff on GTF-looking input is not generated")
     kw_update = dict(kw)
     if case.get("spec2"):
         kw_update.pop("id_spec", None)
@@ -298,6 +334,11 @@ def execute(ctx, case):
                 if bi == 0:
                     db = gffutils.create_db(data, dbfn, from_string=from_string, **kw_create)
                     ctx.mon("imports")
+                    if case.get("force") and fmt == "gtf" and spec["form"] == "none":
+                        ctx.mon("force_gff: imports of GTF-looking input with id_spec None")
+                    if spec.get("tuples") or spec.get("seq") == "tuple":
+                        ctx.mon("tuple entries: imports under a dict id_spec with tuple entries" if spec.get("tuples") else
+                                "tuple entries: imports under an id_spec that is a tuple")
                     if successive and case.get("handle") == "FeatureDB" and dbfn != ":memory:":
                         db.conn.close()
                         db = gffutils.FeatureDB(dbfn)
@@ -328,6 +369,8 @@ def execute(ctx, case):
             except Exception as ex:
                 if r["outcome"] == "reject":
                     ctx.mon("multi-valued id rejected")
+                    if r.get("in_tuple"):
+                        ctx.mon("tuple entries: multi-valued id attribute named in a tuple rejected")
                     break
                 if abort_at == bi:
                     ctx.mon("equal id values collide: 'error' aborts")
@@ -407,6 +450,16 @@ def compare(ctx, case, db, expected, recs, branches, deriver, what):
         ctx.mon("keys compared with the reference derivation")
         if case.get("keys"):
             ctx.mon("keys compared: GTF, id_spec None, non-default gtf keys")
+        if case.get("force") and case["fmt"] == "gtf":
+            if case["spec"]["form"] == "none":
+                ctx.mon("force_gff: keys compared, GTF-looking input, id_spec None")
+                have = MC.attrs_of(rec)
+                if "ID" in have:
+                    ctx.mon("force_gff: lines of GTF-looking input keyed by their ID attribute (id_spec None)")
+                elif (rec["featuretype"], True) in (("gene", "gene_id" in have), ("transcript", "transcript_id" in have)):
+                    ctx.mon("force_gff: gene/transcript lines carrying gene_id/transcript_id and no ID keyed '<featuretype>_<n>' (id_spec None)")
+            else:
+                ctx.mon("force_gff: keys compared, GTF-looking input, explicit id_spec")
         same_line = (row["seqid"] == rec["seqid"] and row["featuretype"] == rec["featuretype"]
                      and str(row["start"]) == rec["start"] and str(row["end"]) == rec["end"])
         if not same_line:
@@ -791,6 +844,13 @@ def account(ctx, case, branches):
         ctx.classes["gtf inference " + ("on" if case["infer"] else "off")] += 1
     if case.get("keys"):
         ctx.classes["gtf: id_spec None with non-default gtf keys"] += 1
+    if case.get("force"):
+        ctx.classes["force_gff: " + ("GTF-looking input" if case["fmt"] == "gtf" else "GFF3 input")] += 1
+        ctx.classes["force_gff: " + ("id_spec None" if case["spec"]["form"] == "none" else "explicit id_spec")] += 1
+    if case["spec"].get("tuples"):
+        nonstr = [t for t, v in case["spec"]["v"].items() if not isinstance(v, str)]
+        every = set(nonstr) <= set(case["spec"]["tuples"]) and len(nonstr) == len(case["spec"]["v"])
+        ctx.classes["tuple entries: " + ("every entry a tuple" if every else "tuples beside lists / strings in one dict")] += 1
     if case.get("family"):
         ctx.classes["confusable=" + case["family"]] += 1
     for sp in (case["spec"], case.get("spec2")):
@@ -801,7 +861,7 @@ def account(ctx, case, branches):
     if case.get("kind") == "collide":
         ctx.classes["equal id values: strategy=" + case["strategy"]] += 1
     text = "".join(text_of(b, case["fmt"]) for b in case["batches"])
-    ctx.case((case["fmt"], case["spec"], case.get("spec2"), case.get("strategy"), len(case["batches"]), case["infer"], case.get("keys"), text,
+    ctx.case((case["fmt"], case["spec"], case.get("spec2"), case.get("strategy"), len(case["batches"]), case["infer"], case.get("keys"), text, case.get("force"),
               case.get("ustrategy"), case.get("handle"), str(case.get("reopen_before"))),
              len(kinds) >= 2 or outcome == "reject" or bool(case.get("family")) or bool(case.get("special")) or len(case["batches"]) >= 3,
              sample={"fmt": case["fmt"], "spec": case["spec"], "spec2": case.get("spec2"), "branches": kinds, "keys": case.get("keys"),
@@ -823,7 +883,7 @@ def run(ctx):
         if branches is not None:
             account(ctx, case, branches)
     for gen, quick, thorough in ((G.gen_keys_case, 320, 6000), (G.gen_confusable_case, 160, 3000), (G.gen_special_case, 480, 9000),
-                                 (G.gen_collide_case, 200, 4000)):
+                                 (G.gen_collide_case, 200, 4000), (G.gen_force_case, 300, 6000), (G.gen_tuple_case, 400, 8000)):
         for _ in range(ctx.budget(quick, thorough)):
             case = gen(rng)
             branches = execute(ctx, case)
@@ -875,7 +935,10 @@ MANIFEST = {
             "auto-numbered keys, every merge strategy, optional reopen in between) must keep counting '<featuretype>_<n>' and leave "
             "every stored feature as imported. Every sampled stored key is also looked up as a str-subclass instance (found), as bytes "
             "in several encodings through handles of default_encoding utf-8 / latin-1 (FeatureNotFoundError) and, when numeric-looking, "
-            "as int (FeatureNotFoundError or the feature stored under str(int)).",
+            "as int (FeatureNotFoundError or the feature stored under str(int)). GTF-looking (and GFF3) files are also imported "
+            "with force_gff=True: under id_spec None the GFF default must apply (ID, else '<featuretype>_<n>'; gene_id / "
+            "transcript_id are ordinary attributes), explicit specs mean what they say. Dict id_spec entries (and whole specs) "
+            "given as tuples of names must behave like the list of the same names, multi-valued rejection included.",
     "note": "Trusted: gvmon/models/C04.py, the reference renderer, icontract. Inputs whose derived keys collide are "
             "skipped (C05 judges them).",
 }
